@@ -43,6 +43,7 @@ func runC11(c *Ctx) {
 
 	c.checkFanInOrder("fan-in-order")
 	c.checkNoLibraryGlobalWrites("library-global-state")
+	c.checkRngLockstep("rng-lockstep")
 	L.Note("packages analysed: %d (whole repository)", len(c.P.Pkgs))
 	c.checkRootHooks("root-hook-only")
 }
